@@ -5,9 +5,10 @@ point, consecutive segments join (the end point of one is the start point of the
 produces are chained that way, with 1..8 control points per axis.
 -/
 import Sb.Properties.C01
+import Sb.Proofs.TrajNoWrap
 
 namespace Sb.C01
-open Sb Sb.Spec Sb.Poly Sb.Proofs
+open Sb Sb.Spec Sb.Poly Sb.Proofs Sb.Traj
 
 /-- one axis of a segment that starts at `v`: 1..8 control points, the first being `v` -/
 def AxisOK (c : List Rat) (v : Rat) : Prop := 1 ≤ c.length ∧ c.length ≤ 8 ∧ c.headD 0 = v
@@ -137,5 +138,62 @@ theorem posAt_zero (s : SegSpec) (rest : List SegSpec) (start : Vec4) (hc : Chai
     posAt (s :: rest) start 0 0 = start := by
   have := posAt_segment_start s rest start 0 hc hd
   simpa using this
+
+/-! ### the position theorem without its wrap-around side condition -/
+
+theorem decodeSegs_durMs (scale : Nat) : ∀ (fuel : Nat) (start : Vec4) (rest : Bytes) (s : SegSpec),
+    s ∈ decodeSegs scale start rest fuel → s.durMs ≤ 65535 := by
+  intro fuel
+  induction fuel with
+  | zero => intro start rest s h; simp [decodeSegs] at h
+  | succ fuel ih =>
+    intro start rest s h
+    unfold decodeSegs at h
+    split at h
+    · simp at h
+    · rename_i s0 r hs
+      rcases List.mem_cons.mp h with rfl | h'
+      · exact decodeSeg_durMs scale start rest _ r hs
+      · exact ih _ _ s h'
+
+theorem totalMs_le (segs : List SegSpec) (h : ∀ s ∈ segs, s.durMs ≤ 65535) : totalMs segs ≤ segs.length * 65535 := by
+  unfold totalMs
+  induction segs with
+  | nil => simp
+  | cons x xs ih =>
+    have h1 := h x (List.mem_cons_self)
+    have h2 := ih (fun y hy => h y (List.mem_cons_of_mem _ hy))
+    simp only [List.map_cons, List.sum_cons, List.length_cons]
+    rw [Nat.succ_mul]
+    omega
+
+/-- **C01 for every block the container can carry** (at most 65535 bytes): the millisecond counter cannot wrap -/
+theorem position_eq_spec_of_block (buf : Bytes) (tr : Traj) (hd : HeaderSpec) (segs : List SegSpec)
+    (hinit : Traj.init buf = .ok tr) (hsegs : segmentsOf buf = some (hd, segs)) (hlen : buf.length ≤ 65535)
+    (hdur : ∀ s, s ∈ segs → 1 ≤ s.durMs) (t : QTime) (ht : t.valid) :
+    (do let p0 ← rewind secExact tr; positionAt secExact p0 t : R (Player × Vec4)).map (·.2)
+      = .ok (posAtQ segs hd.start 0 t) := by
+  apply position_eq_spec buf tr hd segs hinit hsegs hdur _ t ht
+  unfold segmentsOf at hsegs
+  cases hh : decodeHeader buf with
+  | none => rw [hh] at hsegs; cases hsegs
+  | some hr =>
+    obtain ⟨h, rest⟩ := hr
+    rw [hh] at hsegs
+    simp only [Option.some.injEq, Prod.mk.injEq] at hsegs
+    obtain ⟨rfl, rfl⟩ := hsegs
+    have hrest : rest.length + 9 = buf.length := by
+      unfold decodeHeader at hh
+      rcases buf with _ | ⟨f, _ | ⟨x0, _ | ⟨x1, _ | ⟨y0, _ | ⟨y1, _ | ⟨z0, _ | ⟨z1, _ | ⟨w0, _ | ⟨w1, r⟩⟩⟩⟩⟩⟩⟩⟩⟩ <;>
+        simp at hh
+      obtain ⟨_, rfl⟩ := hh
+      simp
+    split
+    · simp [totalMs]
+    · have h1 := decodeSegs_length_le h.scale rest.length h.start rest
+      have h2 := totalMs_le _ (decodeSegs_durMs h.scale rest.length h.start rest)
+      have h3 : (decodeSegs h.scale h.start rest rest.length).length * 65535 ≤ 65526 * 65535 :=
+        Nat.mul_le_mul_right _ (by omega)
+      omega
 
 end Sb.C01
